@@ -319,10 +319,11 @@ pub assume_specification [crate::semantic::types::TypeDefinition::with_cloneable
 pub assume_specification [crate::semantic::types::TypeDefinition::with_defaultable] (s: crate::semantic::types::TypeDefinition, defaultable: bool) -> (r: crate::semantic::types::TypeDefinition)
     ensures r == (crate::semantic::types::TypeDefinition { defaultable: defaultable, ..s });
 
-pub assume_specification [crate::grammar::ItemPath::parent] (p: &crate::grammar::ItemPath) -> (r: Option<crate::grammar::ItemPath>)
-    ensures r == crate::verif_specs::spec_parent(*p);
-pub assume_specification [crate::grammar::ItemPath::join] (p: &crate::grammar::ItemPath, segment: crate::grammar::ItemPathSegment) -> (r: crate::grammar::ItemPath)
-    ensures r == crate::verif_specs::spec_join(*p, segment.0@);
+/// std contract of `<[T]>::to_vec`: a vector of clones, element by element
+pub assume_specification<T: Clone> [<[T]>::to_vec] (s: &[T]) -> (r: Vec<T>)
+    ensures r@.len() == s@.len(), forall|i: int| 0 <= i < s@.len() ==> cloned(s@[i], #[trigger] r@[i]);
+pub assume_specification [<crate::grammar::ItemPathSegment as Clone>::clone] (p: &crate::grammar::ItemPathSegment) -> (r: crate::grammar::ItemPathSegment)
+    ensures r == *p;
 /// R-fmt helper for `format!(LIT, s)` with a string argument
 #[verifier::external_body]
 pub fn v_format1_str(lit: &str, a: &str) -> (r: String)
